@@ -94,6 +94,7 @@ package listz
 //@   ghost[seq] s0 = l.seq
 //@   requires[seq] dSeq(l)
 //@   modifies[seq] l.seq, anyof(DNode.pos)
+//@   ensures[seq] forall x in oldrefs(DNode): (old(x.list) != l && x != e) ==> x.pos == old(x.pos)
 //@   ensures[seq] dSeq(l) && e.pos == p + 1 && forall k in 0..l.len+1: l.seq[k] == ite(k <= p, s0[k], ite(k == p + 1, e, s0[k-1]))
 //@   at end:
 //@     ghost[seq] all DNode.pos = seqdef x: ite(cast(DNode, x).list == l && dpos(x) > p, dpos(x) + 1, dpos(x))
@@ -101,6 +102,7 @@ package listz
 //@     ghost[seq] l.seq = seqdef k: ite(k <= p, s0[k], ite(k == p + 1, e, s0[k-1]))
 
 //@ func DList.insertValue
+//@   allocates 1
 //@   requires wf(l) && l.root.next != nil && placeOK(l, at) && l.len < 9223372036854775807
 //@   modifies at.next, at.next.prev, l.len
 //@   ensures fresh(result) && result.Value == v && result.prev == at && result.next == old(at.next) && at.next == result && old(at.next).prev == result && result.list == l && l.len == old(l.len) + 1
@@ -109,6 +111,7 @@ package listz
 //@   ghost[seq] s0 = l.seq
 //@   requires[seq] dSeq(l)
 //@   modifies[seq] l.seq, anyof(DNode.pos)
+//@   ensures[seq] forall x in oldrefs(DNode): old(x.list) != l ==> x.pos == old(x.pos)
 //@   ensures[seq] dSeq(l) && result.pos == p + 1 && forall k in 0..l.len+1: l.seq[k] == ite(k <= p, s0[k], ite(k == p + 1, result, s0[k-1]))
 
 //@ func DList.remove
@@ -122,6 +125,7 @@ package listz
 //@   ghost[seq] s0 = l.seq
 //@   requires[seq] dSeq(l)
 //@   modifies[seq] l.seq, anyof(DNode.pos)
+//@   ensures[seq] forall x in oldrefs(DNode): old(x.list) != l ==> x.pos == old(x.pos)
 //@   ensures[seq] dSeq(l) && forall k in 0..l.len+1: l.seq[k] == ite(k < p, s0[k], s0[k+1])
 //@   at end:
 //@     ghost[seq] all DNode.pos = seqdef x: ite(old(cast(DNode, x).list) == l && dpos(x) > p, dpos(x) - 1, dpos(x))
@@ -141,6 +145,7 @@ package listz
 //@   ghost[seq] s0 = l.seq
 //@   requires[seq] dSeq(l)
 //@   modifies[seq] l.seq, anyof(DNode.pos)
+//@   ensures[seq] forall x in oldrefs(DNode): old(x.list) != l ==> x.pos == old(x.pos)
 //@   ensures[seq] dSeq(l)
 //@   ensures[seq] (e == at || pa == pe - 1) ==> forall k in 0..l.len+1: l.seq[k] == s0[k]
 //@   ensures[seq] pa < pe - 1 ==> forall k in 0..l.len+1: l.seq[k] == ite(k <= pa, s0[k], ite(k == pa + 1, e, ite(k <= pe, s0[k-1], s0[k])))
@@ -712,3 +717,27 @@ package listz
 //@     invariant (e1 != nil ==> (e1 == l.nodes[i] && i < index)) && (e1 == nil ==> index <= i)
 //@     invariant (e2 != nil ==> (e2 == l.nodes[j] && j < index)) && (e2 == nil ==> index <= j)
 //@     decreases l.len - index
+
+// list copies: the values of other's nodes (as they were at the call) are appended / prepended in order; other may be l
+//@ spec dval(p int) T = cast(DNode, p).Value
+//@ func DList.PushBackDList
+//@   noterm
+//@   ghost[seq] n = other.len
+//@   ghost[seq] L0 = l.len
+//@   requires l != nil && other != nil && wf(l) && wf(other) && (l.root.next == nil ==> l.len == 0) && l.len + other.len < 4611686018427387904
+//@   requires[seq] dInv(l) && dInv(other)
+//@   modifies anyof(DNode.next), anyof(DNode.prev), l.len, l.root.next, l.root.prev
+//@   modifies[seq] l.seq, anyof(DNode.pos), l.root.pos
+//@   ensures wf(l)
+//@   ensures[seq] dSeq(l) && l.len == L0 + n
+//@   ensures[seq] forall k in 1..L0+1: l.seq[k] == old(l.seq[k])
+//@   ensures[seq] forall k in 1..n+1: dval(l.seq[L0+k]) == old(dval(other.seq[k]))
+//@   loop 1:
+//@     invariant wf(l) && l.root.next != nil && l.len < 9223372036854775807
+//@     invariant other != l ==> wf(other)
+//@     invariant[seq] 0 <= i && i <= n && dSeq(l) && l.len == L0 + (n - i)
+//@     invariant[seq] other != l ==> (dInv(other) && other.len == n)
+//@     invariant[seq] forall k in 1..L0+1: l.seq[k] == old(l.seq[k])
+//@     invariant[seq] forall k in 1..n+1: other.seq[k] == old(other.seq[k]) && dval(other.seq[k]) == old(dval(other.seq[k]))
+//@     invariant[seq] i > 0 ==> e == other.seq[n - i + 1]
+//@     invariant[seq] forall k in 1..(n-i)+1: dval(l.seq[L0+k]) == old(dval(other.seq[k]))
